@@ -476,6 +476,17 @@ func (v *Verifier) scalarSort(t types.Type) *Sort {
 
 func (v *Verifier) symSlice(prefix string, elem types.Type, entry bool, isStr bool) Value {
 	s := v.scalarSort(elem)
+	if s == nil && v.structSlices {
+		if soa := v.symSoA(prefix+"@arr", elem); soa != nil {
+			o := v.newObject(prefix, types.NewSlice(elem), entry)
+			v.initMem[o] = soa
+			max := big.NewInt(1 << 40)
+			ln := v.F.RangedVar(prefix+"@len", big.NewInt(0), max)
+			cp := v.F.RangedVar(prefix+"@cap", big.NewInt(0), max)
+			v.initFacts = append(v.initFacts, v.F.Le(ln, cp))
+			return &SliceV{Obj: o, Off: v.F.I64(0), Len: ln, Cap: cp}
+		}
+	}
 	if s == nil {
 		// slice of aggregates (nested slices, structs): the header is symbolic, the contents are not modelled;
 		// any access to an element is reported as outside the subset at that point
@@ -503,6 +514,113 @@ func (v *Verifier) symSlice(prefix string, elem types.Type, entry bool, isStr bo
 		v.initFacts = append(v.initFacts, v.F.Le(ln, cp))
 	}
 	return &SliceV{Obj: o, Off: v.F.I64(0), Len: ln, Cap: cp}
+}
+
+// symSoA: leaf-by-leaf symbolic content for a symbolic-length array of elem (nil when a leaf is not a scalar).
+func (v *Verifier) symSoA(prefix string, elem types.Type) Value {
+	if s := v.scalarSort(elem); s != nil {
+		arr := v.F.Var(prefix, arraySort(s))
+		if ii, ok := intKind(elem); ok && !v.isAbstract(elem) {
+			v.F.VarLo[arr] = ii.lo()
+			v.F.VarHi[arr] = ii.hi()
+		}
+		return &ArrV{Arr: arr, Elem: elem}
+	}
+	if v.isAbstract(elem) {
+		return nil
+	}
+	var es []Value
+	switch u := elem.Underlying().(type) {
+	case *types.Struct:
+		for i := 0; i < u.NumFields(); i++ {
+			e := v.symSoA(prefix+"."+u.Field(i).Name(), u.Field(i).Type())
+			if e == nil {
+				return nil
+			}
+			es = append(es, e)
+		}
+	case *types.Array:
+		if u.Len() > 64 {
+			return nil
+		}
+		for i := int64(0); i < u.Len(); i++ {
+			e := v.symSoA(fmt.Sprintf("%s_%d", prefix, i), u.Elem())
+			if e == nil {
+				return nil
+			}
+			es = append(es, e)
+		}
+	default:
+		return nil
+	}
+	return &SoAV{Elems: es, Elem: elem}
+}
+
+// soaLoad: the element (or component, following rest) at position idx of a leaf-by-leaf array.
+func (v *Verifier) soaLoad(c Value, idx *Term, rest []PE) Value {
+	switch a := c.(type) {
+	case *ArrV:
+		if len(rest) != 0 {
+			unsup("path below a scalar leaf of a struct slice")
+		}
+		return v.F.Select(a.Arr, idx)
+	case *SoAV:
+		if len(rest) == 0 {
+			es := make([]Value, len(a.Elems))
+			for k := range es {
+				es[k] = v.soaLoad(a.Elems[k], idx, nil)
+			}
+			return &AggV{es}
+		}
+		k := rest[0].I
+		if rest[0].T != nil {
+			if !rest[0].T.IsConst() {
+				unsup("symbolic index inside an element of a struct slice")
+			}
+			k = int(rest[0].T.K.Int64())
+		}
+		if k < 0 || k >= len(a.Elems) {
+			unsup("component %d out of range in an element of a struct slice", k)
+		}
+		return v.soaLoad(a.Elems[k], idx, rest[1:])
+	}
+	unsup("soaLoad of %T", c)
+	return nil
+}
+
+// soaStore: the array content after writing nv at position idx (component path rest).
+func (v *Verifier) soaStore(c Value, idx *Term, rest []PE, nv Value) Value {
+	switch a := c.(type) {
+	case *ArrV:
+		t, ok := nv.(*Term)
+		if !ok || len(rest) != 0 {
+			unsup("store of a non-scalar into a scalar leaf of a struct slice")
+		}
+		return &ArrV{Arr: v.F.Store(a.Arr, idx, t), Elem: a.Elem}
+	case *SoAV:
+		es := append([]Value(nil), a.Elems...)
+		if len(rest) == 0 {
+			ag, ok := nv.(*AggV)
+			if !ok || len(ag.Elems) != len(es) {
+				unsup("store of %T into an element of a struct slice", nv)
+			}
+			for k := range es {
+				es[k] = v.soaStore(a.Elems[k], idx, nil, ag.Elems[k])
+			}
+			return &SoAV{Elems: es, Elem: a.Elem}
+		}
+		k := rest[0].I
+		if rest[0].T != nil {
+			if !rest[0].T.IsConst() {
+				unsup("symbolic index inside an element of a struct slice")
+			}
+			k = int(rest[0].T.K.Int64())
+		}
+		es[k] = v.soaStore(a.Elems[k], idx, rest[1:], nv)
+		return &SoAV{Elems: es, Elem: a.Elem}
+	}
+	unsup("soaStore into %T", c)
+	return nil
 }
 
 // ---------- memory ----------
@@ -622,6 +740,12 @@ func (v *Verifier) getPath(c Value, path []PE) Value {
 				idx = v.F.I64(int64(pe.I))
 			}
 			c = v.F.Select(a.Arr, idx)
+		case *SoAV:
+			idx := pe.T
+			if idx == nil {
+				idx = v.F.I64(int64(pe.I))
+			}
+			return v.soaLoad(a, idx, path[i+1:])
 		case *IteV:
 			return v.mergeV(a.C, v.getPath(a.A, path[i:]), v.getPath(a.B, path[i:]))
 		default:
@@ -663,6 +787,12 @@ func (v *Verifier) setPath(c Value, path []PE, nv Value) Value {
 			unsup("store of non-scalar into symbolic array")
 		}
 		return &ArrV{Arr: v.F.Store(a.Arr, idx, t), Elem: a.Elem}
+	case *SoAV:
+		idx := pe.T
+		if idx == nil {
+			idx = v.F.I64(int64(pe.I))
+		}
+		return v.soaStore(a, idx, path[1:], nv)
 	case *IteV:
 		return v.mergeV(a.C, v.setPath(a.A, path, nv), v.setPath(a.B, path, nv))
 	case *Term:
@@ -755,6 +885,14 @@ func (v *Verifier) mergeV(c *Term, a, b Value) Value {
 	case *ArrV:
 		if y, ok := b.(*ArrV); ok {
 			return &ArrV{Arr: v.F.Ite(c, x.Arr, y.Arr), Elem: x.Elem}
+		}
+	case *SoAV:
+		if y, ok := b.(*SoAV); ok && len(x.Elems) == len(y.Elems) {
+			es := make([]Value, len(x.Elems))
+			for k := range es {
+				es[k] = v.mergeV(c, x.Elems[k], y.Elems[k])
+			}
+			return &SoAV{Elems: es, Elem: x.Elem}
 		}
 	case *IfaceV:
 		if y, ok := b.(*IfaceV); ok && (x.T == y.T || (x.T != nil && y.T != nil && types.Identical(x.T, y.T))) {
